@@ -98,3 +98,31 @@ Theorem C16_ubj_parser_prompt : forall k chunks evs e p,
   (length evs <= S k)%nat /\ (length evs = S k -> e = UP.ueVisitor).
 Proof. exact UV.C16_ubj_parse_prompt. Qed.
 Print Assumptions C16_ubj_parser_prompt.
+
+(* JSON parser, every input, chunking and failure index k, any float oracle: both runs return
+   (totality), and the failing run delivers exactly the first k+1 events of the unfailing run
+   and returns the visitor's error unchanged. *)
+From SF Require Json.Parse Json.ParseVisitorProofs.
+Module JP := SF.Json.Parse.
+Module JV := SF.Json.ParseVisitorProofs.
+Theorem C16_json_parser : forall (pf : bytes -> option Z) k chunks evs0 e0 p0,
+  JP.jrun_chunks pf None chunks = Ok (evs0, e0, p0) ->
+  exists p, JP.jrun_chunks pf (Some k) chunks =
+      Ok (firstn (S k) evs0, (if (length evs0 <=? k)%nat then e0 else JP.jeVisitor), p) /\
+    ((length evs0 <= k)%nat -> p = p0).
+Proof. exact JV.C16_json_parse_fail_spec. Qed.
+Print Assumptions C16_json_parser.
+
+Theorem C16_json_parser_parse : forall (pf : bytes -> option Z) k b evs0 e0 p0,
+  JP.jrun_parse pf None b = Ok (evs0, e0, p0) ->
+  exists p, JP.jrun_parse pf (Some k) b =
+      Ok (firstn (S k) evs0, (if (length evs0 <=? k)%nat then e0 else JP.jeVisitor), p) /\
+    ((length evs0 <= k)%nat -> p = p0).
+Proof. exact JV.C16_json_run_parse_fail_spec. Qed.
+Print Assumptions C16_json_parser_parse.
+
+Theorem C16_json_parser_prompt : forall (pf : bytes -> option Z) k chunks evs e p,
+  JP.jrun_chunks pf (Some k) chunks = Ok (evs, e, p) ->
+  (length evs <= S k)%nat /\ (length evs = S k -> e = JP.jeVisitor).
+Proof. exact JV.C16_json_parse_prompt. Qed.
+Print Assumptions C16_json_parser_prompt.
